@@ -1,5 +1,5 @@
 #![allow(dead_code)]
-mod vocab; mod tree; mod val; mod call; mod render; mod refsem; mod expect; mod engine; mod meta; mod agg; mod loops; mod history; mod conv; mod fclass;
+mod vocab; mod tree; mod val; mod call; mod render; mod refsem; mod expect; mod engine; mod meta; mod agg; mod loops; mod history; mod conv; mod fclass; mod functions;
 
 use engine::*;
 use serde_json::{json, Value};
@@ -66,6 +66,7 @@ fn run_replay(job: &Value) {
         let bv: Value = match serde_json::from_str(&line) { Ok(x) => x, Err(_) => continue };
         out.heartbeat(i);
         out.stats.items += 1;
+        if bv["kind"].as_str() == Some("vocab") { out.heartbeat(i); out.stats.items += 1; functions::replay_item(&mut out, &bv, &mut rng, job["samples_per_pair"].as_u64().unwrap_or(200) as usize); continue; }
         if bv["kind"].as_str() == Some("fclass") { out.heartbeat(i); out.stats.items += 1; fclass::replay(&mut out, &bv); continue; }
         if bv.get("chars").is_some() {
             let (text, outs) = replay_string(&mut out, &e, &bv, &phs, i);
